@@ -9,6 +9,11 @@ import traceback
 from concurrent.futures import ProcessPoolExecutor, as_completed
 
 VERIF = os.path.dirname(os.path.dirname(os.path.abspath(__file__)))
+
+
+def outdir():
+    """Where evidence/ and replays/ go (self-tests redirect them)."""
+    return os.environ.get("VERIF_OUT", VERIF)
 EXIT_OK, EXIT_VIOLATION, EXIT_HARNESS = 0, 1, 2
 
 
@@ -193,8 +198,9 @@ class Report:
         return True
 
     def finish(self, coverage, assumptions=()):
-        os.makedirs(os.path.join(VERIF, "evidence"), exist_ok=True)
-        os.makedirs(os.path.join(VERIF, "replays"), exist_ok=True)
+        OUT = outdir()
+        os.makedirs(os.path.join(OUT, "evidence"), exist_ok=True)
+        os.makedirs(os.path.join(OUT, "replays"), exist_ok=True)
         wall = time.time() - self.t0
         # distinct violation signatures -> replay files
         seen = {}
@@ -206,7 +212,7 @@ class Report:
             seen[key] = (s, r, c + 1)
         lines = []
         for i, (key, (sig, rep, cnt)) in enumerate(sorted(seen.items())):
-            path = os.path.join(VERIF, "replays", f"{self.prop}-{self.seed}-{i}.json")
+            path = os.path.join(OUT, "replays", f"{self.prop}-{self.seed}-{i}.json")
             rep = dict(rep)
             rep["property"] = self.prop
             rep["signature"] = sig
@@ -228,7 +234,7 @@ class Report:
               "wall_s": round(wall, 2), "violations": len(seen)}
         if self.harness_errors:
             ev["coverage"]["harness_errors"] = self.harness_errors[:20]
-        path = os.path.join(VERIF, "evidence", f"{self.prop}.json")
+        path = os.path.join(OUT, "evidence", f"{self.prop}.json")
         tmp = path + ".tmp"
         with open(tmp, "w") as f:
             json.dump(ev, f, indent=1, sort_keys=True, default=str)
